@@ -345,6 +345,36 @@ class RemoveKernel(Transformation):
             if _called_name(call) in self.remove_kernels
         }
         routine.body = Transformer(call_map).visit(routine.body)
+        self._remove_unused_declarations(routine, call_map)
+
+    @staticmethod
+    def _remove_unused_declarations(routine, call_map):
+        """
+        Remove the imports and interface bodies of removed kernels that are not
+        called any more: they would keep the kernel in the dependency graph and
+        refer to program units that are not part of the output.
+        """
+        removed = {str(call.name).lower() for call in call_map}
+        removed -= {str(call.name).lower() for call in FindNodes(ir.CallStatement).visit(routine.body)}
+        if not removed:
+            return
+        spec_map = {}
+        for imp in FindNodes(ir.Import).visit(routine.spec):
+            if imp.c_import or not imp.symbols:
+                continue
+            symbols = tuple(s for s in imp.symbols if s.name.lower() not in removed)
+            if len(symbols) != len(imp.symbols):
+                spec_map[imp] = imp.clone(symbols=symbols) if symbols else None
+        for intf in FindNodes(ir.Interface).visit(routine.spec):
+            body = tuple(
+                node for node in intf.body
+                if not (isinstance(node, Subroutine) and node.name.lower() in removed)
+            )
+            if len(body) != len(intf.body):
+                has_routines = any(isinstance(node, Subroutine) for node in body)
+                spec_map[intf] = intf.clone(body=body) if has_routines else None
+        if spec_map:
+            routine.spec = Transformer(spec_map).visit(routine.spec)
 
     def plan_subroutine(self, routine, **kwargs):
         item = kwargs.get('item')
